@@ -796,14 +796,14 @@ theorem stepS_parseConditional {f : Nat} (h : DescS re isAlnum f) (st : PState) 
   obtain ⟨end_, child, st2⟩ := r
   have hc : parsedOK child = true := hr2
   try simp only at hr2 ⊢
-  have hinner' : ∀ c : Expr, parsedOK c = true → parsedOK (match c with
-      | .backref g => Expr.backrefExists g
-      | c => c) = true := by
-    intro c hc'
+  have hinner' : ∀ (gt : Bool) (c : Expr), parsedOK c = true → parsedOK (match gt, c with
+      | true, .backref g => Expr.backrefExists g
+      | _, c => c) = true := by
+    intro gt c hc'
     split
     · simp [parsedOK]
     · exact hc'
-  have hinner := hinner' condition hcond
+  have hinner := hinner' (isDigit b || b == ch '\'' || b == ch '<') condition hcond
   refine OkP.ite (fun _ => ?_) (fun _ => ?_)
   · split
     · refine OkP.bind OkP.trivial (fun after _ => ?_)
